@@ -179,6 +179,27 @@ fn one_damage(run: &Run, s: &Subject, base_errors: &std::collections::BTreeMap<u
     crate::scratch::rm(&arch);
 }
 
+/// `cv c09-child <arch> <nofile>`: full validation in a process that may have only <nofile> file
+/// descriptors open at a time (RLIMIT_NOFILE): validation reads blocks concurrently, and how many
+/// files it holds open at once must not depend on how many blocks the archive has.
+pub fn child(args: &[String]) -> i32 {
+    let arch = std::path::PathBuf::from(&args[0]);
+    let nofile: u64 = args[1].parse().unwrap();
+    // SAFETY: plain libc calls on this process's own limits
+    unsafe {
+        let mut r = libc::rlimit { rlim_cur: 0, rlim_max: 0 };
+        libc::getrlimit(libc::RLIMIT_NOFILE, &mut r);
+        r.rlim_cur = nofile.min(r.rlim_max);
+        if libc::setrlimit(libc::RLIMIT_NOFILE, &r) != 0 {
+            println!("RESULT {}", json!({"harness_error": "setrlimit failed"}));
+            return 3;
+        }
+    }
+    let v = cs::validate(cs::local(&arch), false);
+    println!("RESULT {}", json!({"clean": v.clean(), "panic": v.panic, "describe": v.describe().chars().take(400).collect::<String>()}));
+    0
+}
+
 /// Scale: healthy archives with large blocks under default options -- a combined block that
 /// overruns the 20 MiB block size by one small file (21 files of 1 000 000 bytes), a file of more
 /// than one 20 MiB block, and 300 blocks of 64 bytes -- must validate silently, fully and quickly.
@@ -207,6 +228,28 @@ fn large_healthy(run: &Run) {
         run.count("blocks_in_large_healthy_archives", raw.blocks.len() as u64);
         if raw.blocks.values().any(|b| b.len.unwrap_or(0) > (20 << 20)) {
             run.count("healthy_archives_with_a_block_above_the_block_size", 1);
+        }
+        if raw.blocks.len() >= 250 {
+            // the same full validation in a process limited to 160 open files
+            let exe = std::env::current_exe().expect("exe");
+            let outp = std::process::Command::new(&exe).arg("c09-child").arg(&w.arch).arg("160").output().expect("spawn child");
+            let stdout = String::from_utf8_lossy(&outp.stdout);
+            let rep: Option<Value> = stdout.lines().find_map(|l| l.strip_prefix("RESULT ")).and_then(|r| serde_json::from_str(r).ok());
+            match rep {
+                Some(r) if r.get("harness_error").is_none() => {
+                    run.count("healthy_validations", 1);
+                    run.count("healthy_validations_with_few_file_descriptors", 1);
+                    if r["clean"].as_bool() != Some(true) {
+                        run.violation(
+                            "false-alarm-on-healthy-archive:full-with-few-file-descriptors",
+                            format!("large healthy archive ({label}; {} blocks) validated in a process allowed 160 open files: {}", raw.blocks.len(), r["describe"]),
+                            replay.clone(),
+                        );
+                        return;
+                    }
+                }
+                _ => run.inconclusive(format!("validate child with a low file-descriptor limit did not report: {:?} {}", outp.status, String::from_utf8_lossy(&outp.stderr).lines().last().unwrap_or(""))),
+            }
         }
         for quick in [false, true] {
             for workers in [0usize, 4] {
@@ -288,10 +331,10 @@ pub fn run(tier: Tier, replay: Option<Value>) -> i32 {
         }
     }
     let needs: &[(&str, u64)] = if replay.is_some() { &[] } else {
-        &[("healthy_validations", 100), ("healthy_states_with_interrupted_band", 3), ("damages_applied", 200), ("harmful_damages", 50), ("harmless_damages", 5), ("large_healthy_archives", 2), ("harmful_damages_validated_with_a_stale_gc_lock", 20), ("healthy_archives_with_a_block_above_the_block_size", 1)]
+        &[("healthy_validations", 100), ("healthy_states_with_interrupted_band", 3), ("damages_applied", 200), ("harmful_damages", 50), ("harmless_damages", 5), ("large_healthy_archives", 2), ("healthy_validations_with_few_file_descriptors", 1), ("harmful_damages_validated_with_a_stale_gc_lock", 20), ("healthy_archives_with_a_block_above_the_block_size", 1)]
     };
     run.finish(
-        "a third of the harmful damages (and a quarter of the healthy states) are validated once more with a GC_LOCK file left in the archive: the verdicts must not change; two large healthy archives (default options: 21 files of 1 000 000 bytes, i.e. a combined block above the 20 MiB block size, plus a file of more than one block; 300 one-file blocks) validated fully and quickly on both runtime flavours; (every third healthy history and every second damaged archive is validated on a 4-worker multi-thread runtime) healthy side: histories as in C02 (completed and interrupted-with-header backups, deletes, gcs; states with a head-less band directory skipped); after every archive-changing step full and quick validation must return Ok and report nothing. Damage side: archives with 2-4 bands (complete, interrupted in the middle, interrupted newest) sharing blocks; EVERY file except CONSERVE x {delete (not for BANDTAIL), truncate to 0, truncate to half, overwrite with seeded garbage} and 8 seeded bit flips per block; a damage is harmful when some version's restore by id fails, reports (more) errors or differs from its pre-damage result (interrupted versions with a header included; only the vanished or emptied last hunk of an interrupted band is exempt, because that state is exactly what an interruption leaves); every harmful damage must make full validation report >= 1 error, and every harmful deletion quick validation too. Distinct = (archive, damaged file, action) that is harmful.",
+        "a third of the harmful damages (and a quarter of the healthy states) are validated once more with a GC_LOCK file left in the archive: the verdicts must not change; two large healthy archives (default options: 21 files of 1 000 000 bytes, i.e. a combined block above the 20 MiB block size, plus a file of more than one block; 300 one-file blocks) validated fully and quickly on both runtime flavours, the 300-block one also in a child process limited to 160 open files (RLIMIT_NOFILE); (every third healthy history and every second damaged archive is validated on a 4-worker multi-thread runtime) healthy side: histories as in C02 (completed and interrupted-with-header backups, deletes, gcs; states with a head-less band directory skipped); after every archive-changing step full and quick validation must return Ok and report nothing. Damage side: archives with 2-4 bands (complete, interrupted in the middle, interrupted newest) sharing blocks; EVERY file except CONSERVE x {delete (not for BANDTAIL), truncate to 0, truncate to half, overwrite with seeded garbage} and 8 seeded bit flips per block; a damage is harmful when some version's restore by id fails, reports (more) errors or differs from its pre-damage result (interrupted versions with a header included; only the vanished or emptied last hunk of an interrupted band is exempt, because that state is exactly what an interruption leaves); every harmful damage must make full validation report >= 1 error, and every harmful deletion quick validation too. Distinct = (archive, damaged file, action) that is harmful.",
         &["the last hunk of an incomplete band can vanish without any format-level trace: exempt", "E1 walker decides 'restores exactly'"],
         Some(true),
         needs,
